@@ -318,7 +318,7 @@ func coqMem(c memCase, o memObs) string {
 
 const (
 	wuBase   = 100000
-	wuWitN   = 17
+	wuWitN   = 18
 	constsID = 999999
 )
 
